@@ -8,7 +8,7 @@ first successful write.  The fault named by the obligation is tried first, then 
 replay reports the failing history that exists on the real code -- or none.
 
 Primitives intercepted (only for paths under the store root): open-for-write (builtins.open / io.open, hence Path.open), write
-on such a file, its close, os.replace, os.rename, os.makedirs.  Writes are held back and reach the disk at close (buffering);
+on such a file, its close, os.replace, os.rename, os.makedirs, os.unlink / os.remove.  Writes are held back and reach the disk at close (buffering);
 a crash or an error at write/close leaves a chosen prefix (nothing / half / all) of the pending data on disk.
 """
 import builtins
@@ -116,6 +116,7 @@ class FaultFS:
 
     def __enter__(self):
         self.saved = (builtins.open, io.open, os.replace, os.rename, os.makedirs)
+        self.saved_rm = (os.unlink, os.remove)
         real_open = self.saved[0]
         fs = self
 
@@ -158,6 +159,21 @@ class FaultFS:
                 return r
             return self.saved[4](name, *a, **kw)
 
+        def wrap1(real):
+            def f(path, *a, **kw):
+                if fs.under(path):
+                    act = fs.step("unlink", path)
+                    if act and act[0] == "error":
+                        raise OSError(errno.EIO, "injected: I/O error", os.fspath(path))
+                    r = real(path, *a, **kw)
+                    fs.complete.pop(os.fspath(path), None)
+                    if act:
+                        raise _Crash()
+                    return r
+                return real(path, *a, **kw)
+            return f
+        os.unlink = wrap1(self.saved_rm[0])
+        os.remove = wrap1(self.saved_rm[1])
         builtins.open = f_open
         io.open = f_open
         os.replace = wrap2(self.saved[2], "replace")
@@ -167,6 +183,7 @@ class FaultFS:
 
     def __exit__(self, *a):
         builtins.open, io.open, os.replace, os.rename, os.makedirs = self.saved
+        os.unlink, os.remove = self.saved_rm
         return False
 
 
@@ -175,7 +192,8 @@ FAULTS = {"open_w": [("crash", "none"), ("error", "none")],
           "close": [("crash", "half"), ("error", "half"), ("error", "none")],
           "replace": [("crash", "all"), ("error", "none")],
           "rename": [("crash", "all"), ("error", "none")],
-          "makedirs": [("crash", "all"), ("error", "none")]}
+          "makedirs": [("crash", "all"), ("error", "none")],
+          "unlink": [("crash", "all"), ("error", "none")]}
 
 _REPO = sys.argv[1] if (__name__ == "__main__" and len(sys.argv) > 1) else os.environ.get("PYVC_REPO", "/repo")
 if _REPO not in sys.path:
